@@ -243,6 +243,21 @@ Theorem C15_qualified_type_lookup_right : forall p r fn f' t m idx,
 Proof. exact qualified_type_lookup_right. Qed.
 Print Assumptions C15_qualified_type_lookup_right.
 
+(* the same for the base service of a service: what the resolver bound (sv_ref) is what
+   GetServiceDescriptor of the written base name and GetParent return *)
+Theorem C15_base_service_lookup_right : forall p r fn f' sv' m idx,
+  parsed_program p = true -> resolve_program p = Ok r -> prog_ok r = true ->
+  prog_file r fn = Some f' -> f_name2cat f' <> None ->
+  distinct_basenames f' = true -> includes_plain f' = true -> includes_named f' = true ->
+  In sv' (f_services f') -> sv_ref sv' = Some (Ref m idx) -> m <> [] ->
+  exists i gn g',
+    nth_include f' idx = Some i /\ in_ref i = Some gn /\ prog_file r gn = Some g' /\
+    lookup m (file_defs g') = Some DkService /\
+    get_service (registry_of r) (descriptor_of f') (sv_extends sv') = omap (service_desc (f_filename g')) (find_service g' m) /\
+    get_parent (registry_of r) (service_desc fn sv') = omap (service_desc (f_filename g')) (find_service g' m).
+Proof. exact base_service_lookup_right. Qed.
+Print Assumptions C15_base_service_lookup_right.
+
 (* GetAllMethods: the methods of the service followed by those of its base service, and so on, for an
    extends chain of any length (links inside a file or through an include prefix) *)
 Theorem C15_all_methods_chain : forall P, prog_ok P = true -> forall f s l, base_chain P f s l ->
